@@ -194,7 +194,11 @@ def set_objective(
             )
         # Check whether expression only uses variables from current model;
         # clone the objective if not, faster than cloning without checking
-        if not _valid_atoms(model, value.expression):
+        # (an objective without variables passes that check, but one that belongs
+        # to another problem must not be taken away from it either)
+        if not _valid_atoms(model, value.expression) or getattr(
+            value, "problem", None
+        ) not in (None, model.solver):
             value = interface.Objective.clone(value, model=model.solver)
 
         if not additive:
